@@ -744,8 +744,8 @@ class CSemantics:
 
     def on_ternop(self, lhs, op, mid, rhs, location):
         """Handle ternary operator 'a ? b : c'"""
-        lhs = self.pointer(lhs)
-        lhs = self.coerce(lhs, self.int_type)
+        # The condition is compared with zero in its own type:
+        lhs = self.check_condition(lhs)
         # TODO: For now, we use the common type of b and c as the result
         # But is this correct?
         mid = self.pointer(mid)
